@@ -5,10 +5,11 @@ mutant of mutants/MAP.json (against its mapped checks), quick tier, one after th
 (apply, check, revert). Writes seeded/RESULTS.json and prints one line per change.
 /repo must be clean; it is left clean."""
 import json, os, re, subprocess, sys, time
-V = "/verif"
+V = os.path.dirname(os.path.dirname(os.path.abspath(__file__)))
+REPO = os.path.abspath(os.environ.get("VERIF_REPO", "/repo"))  # a scratch copy of /verif with a scratch worktree may be used
 only = sys.argv[2] if len(sys.argv) > 2 and sys.argv[1] == "--only" else ""
 def sh(cmd): return subprocess.run(cmd, shell=True, stdout=subprocess.PIPE, stderr=subprocess.STDOUT, text=True)
-if sh("git -C /repo status --porcelain").stdout.strip():
+if sh(f"git -C {REPO} status --porcelain").stdout.strip():
     print("refusing: /repo is dirty"); sys.exit(2)
 jobs = []
 for d in sorted(os.listdir(f"{V}/seeded")):
@@ -26,7 +27,7 @@ for k in sorted(mp):
 res, missed = {}, []
 for name, patch, ids in jobs:
     t0 = time.time()
-    r = sh(f"git -C /repo apply {patch}")
+    r = sh(f"git -C {REPO} apply {patch}")
     if r.returncode != 0:
         res[name] = {"applies": False}; missed.append(name); print(f"{name}: PATCH DOES NOT APPLY"); continue
     caught_by = []
@@ -38,12 +39,12 @@ for name, patch, ids in jobs:
             elif r.returncode not in (0, 1):
                 caught_by.append(i + ":rc=%d" % r.returncode)
     finally:
-        sh("git -C /repo checkout -- . && git -C /repo clean -fdq -- .")
+        sh(f"git -C {REPO} checkout -- . && git -C {REPO} clean -fdq -- .")
     ok = any(":" not in c for c in caught_by)
     res[name] = {"applies": True, "checks": ids, "caught_by": caught_by, "caught": ok, "seconds": round(time.time() - t0, 1)}
     if not ok: missed.append(name)
     print(f"{name}: {'caught by ' + ','.join(caught_by) if ok else 'MISSED ' + str(caught_by)} ({res[name]['seconds']}s)", flush=True)
 if not only:
-    json.dump({"tree": sh("git -C /repo rev-parse --short HEAD").stdout.strip(), "results": res}, open(f"{V}/seeded/RESULTS.json", "w"), indent=1)
+    json.dump({"tree": sh(f"git -C {REPO} rev-parse --short HEAD").stdout.strip(), "results": res}, open(f"{V}/seeded/RESULTS.json", "w"), indent=1)
 print(f"{len(jobs) - len(missed)}/{len(jobs)} caught; missed: {missed}")
-assert not sh("git -C /repo status --porcelain").stdout.strip()
+assert not sh(f"git -C {REPO} status --porcelain").stdout.strip()
